@@ -198,6 +198,22 @@ func (x *xtr) composite(t *ast.CompositeLit) xval {
 			x.bad(t, "literal of %s, whose slice capacity is modelled (structSpec.Caps)", st.name)
 		}
 		given := map[string]string{}
+		if len(t.Elts) > 0 {
+			if _, keyed := t.Elts[0].(*ast.KeyValueExpr); !keyed {
+				// positional literal T{a, b}: Go demands every field, in declaration order; only for structs modelled in full
+				if st.partial || len(st.drop) > 0 || len(t.Elts) != len(st.fields) {
+					x.bad(t, "positional literal of %s, which is not modelled field by field", st.name)
+				}
+				var parts []string
+				for i, el := range t.Elts {
+					if _, keyed := el.(*ast.KeyValueExpr); keyed {
+						x.bad(el, "mixed struct literal")
+					}
+					parts = append(parts, fmt.Sprintf("%s := %s", ident(st.fields[i].name), x.co(el, x.expr(el), st.fields[i].ty)))
+				}
+				return xval{s: "({ " + strings.Join(parts, ", ") + " } : " + ty.lean() + ")", ty: ty}
+			}
+		}
 		for _, el := range t.Elts {
 			kv, ok := el.(*ast.KeyValueExpr)
 			if !ok {
@@ -464,6 +480,19 @@ func (x *xtr) call(c *ast.CallExpr) xval {
 			return xval{s: x.applyFn(c, ident(id.Name), ft), ty: ft.results[0]}
 		}
 	}
+	if pn, ok := x.pkgPrims[name]; ok {
+		if se, isSel := c.Fun.(*ast.SelectorExpr); isSel {
+			if id, isId := se.X.(*ast.Ident); isId {
+				if _, shadowed := x.env[id.Name]; !shadowed {
+					ft := x.env[pn]
+					if len(ft.results) != 1 || ft.results[0].k == kErr {
+						x.bad(c, "call of %s with %d results or an error result", name, len(ft.results))
+					}
+					return xval{s: x.applyFn(c, ident(pn), ft), ty: ft.results[0]}
+				}
+			}
+		}
+	}
 	if at, ok := c.Fun.(*ast.ArrayType); ok && at.Len == nil && len(c.Args) == 1 {
 		if lit, ok := c.Args[0].(*ast.BasicLit); ok && lit.Kind == token.STRING && x.goTy(at).elem.k == kByte {
 			str, err := strconv.Unquote(lit.Value)
@@ -635,6 +664,18 @@ func (x *xtr) call(c *ast.CallExpr) xval {
 	case "errors.New":
 		need(1)
 		return xval{s: x.co(c, x.expr(c.Args[0]), tStr), ty: tErr}
+	case "cmp.Compare":
+		need(2)
+		a, b := x.expr(c.Args[0]), x.expr(c.Args[1])
+		switch {
+		case a.ty.k == kU64 && (b.ty.k == kU64 || b.ty.k == kConst) || a.ty.k == kConst && b.ty.k == kU64:
+			x.usesRtX = true
+			return xval{s: fmt.Sprintf("Go.cmpU64 %s %s", paren(x.co(c.Args[0], a, tU64x)), paren(x.co(c.Args[1], b, tU64x))), ty: tInt}
+		case a.ty.k == kInt && (b.ty.k == kInt || b.ty.k == kConst) || a.ty.k == kConst && b.ty.k == kInt:
+			x.usesRtX = true
+			return xval{s: fmt.Sprintf("Go.cmpInt %s %s", paren(x.co(c.Args[0], a, tInt)), paren(x.co(c.Args[1], b, tInt))), ty: tInt}
+		}
+		x.bad(c, "cmp.Compare of %s and %s", a.ty.lean(), b.ty.lean())
 	case "bytes.Compare":
 		need(2)
 		bt := listOf(tBytex)
